@@ -44,6 +44,7 @@ type Spec struct {
 	RefFile        string   // with Ref: the definition lives in this other file (a cross-file reference "<file>#/$defs/<name>")
 	built          *builder
 	refStr         *absint.Str
+	ConcreteDef    string // with Ref: the definition has this concrete name
 	NoType         bool   // the node states no "type" (an object with properties only)
 	IntBounds      bool   // the numeric bounds are integers (fact on their atoms)
 	DefSameAs      string // with Ref: the definition has the same NAME as the (earlier built) definition with this label (possibly in another file)
@@ -76,6 +77,14 @@ func (s *Spec) Has(kw string) bool {
 		}
 	}
 	return false
+}
+
+// defStr is the definition's name in the schema: concrete when ConcreteDef is set (the real identifier synthesiser then names the type).
+func (s *Spec) defStr() absint.Str {
+	if s.ConcreteDef != "" {
+		return absint.Lit(s.ConcreteDef)
+	}
+	return absint.HoleStr(s.DefName)
 }
 
 // Text is the raw property name as it appears in the emitted text: the concrete name, or the placeholder of the name atom.
@@ -216,6 +225,7 @@ type builder struct {
 	preOrder bool
 	exts     map[string]*absint.Atom
 	names    map[string]*absint.Atom
+	pre      map[string]bool // names introduced by a required-only branch before their property was built
 	g        *gen.G
 	defKeys  []gen.V
 	defVals  []gen.V
@@ -273,7 +283,7 @@ func (b *builder) build(s *Spec, label string) gen.V {
 	slot := -1
 	if s.Ref != "" && b.preOrder {
 		s.DefName = b.defName(s, label)
-		b.defKeys = append(b.defKeys, absint.HoleStr(s.DefName))
+		b.defKeys = append(b.defKeys, s.defStr())
 		b.defVals = append(b.defVals, nil)
 		slot = len(b.defVals) - 1
 	}
@@ -356,6 +366,10 @@ func (b *builder) build(s *Spec, label string) gen.V {
 		for _, p := range s.Props {
 			if p.SameAs != "" && b.names[p.SameAs] != nil {
 				p.Name = b.names[p.SameAs]
+			} else if b.pre[p.Label] {
+				// the name was already introduced by a required-only branch that came first
+				p.Name = b.names[p.Label]
+				delete(b.pre, p.Label)
 			} else {
 				p.Name = g.M.NewAtom("RawStr", "name of property "+p.Label)
 				p.Name.NonEmpty = true
@@ -477,9 +491,20 @@ func (b *builder) build(s *Spec, label string) gen.V {
 	if len(s.ReqOnly) > 0 {
 		var req []absint.Str
 		for _, l := range s.ReqOnly {
-			if a := b.names[l]; a != nil {
-				req = append(req, absint.HoleStr(a))
+			if b.names == nil {
+				b.names = map[string]*absint.Atom{}
 			}
+			if b.names[l] == nil {
+				// the property is declared by a LATER branch: introduce its name now
+				a := g.M.NewAtom("RawStr", "name of property "+l)
+				a.NonEmpty = true
+				b.names[l] = a
+				if b.pre == nil {
+					b.pre = map[string]bool{}
+				}
+				b.pre[l] = true
+			}
+			req = append(req, absint.HoleStr(b.names[l]))
 		}
 		f["Required"] = g.Strs(req...)
 	}
@@ -537,9 +562,9 @@ func (b *builder) build(s *Spec, label string) gen.V {
 			if b.fileKeys == nil {
 				b.fileKeys, b.fileVals = map[string][]gen.V{}, map[string][]gen.V{}
 			}
-			b.fileKeys[s.RefFile] = append(b.fileKeys[s.RefFile], absint.HoleStr(s.DefName))
+			b.fileKeys[s.RefFile] = append(b.fileKeys[s.RefFile], s.defStr())
 			b.fileVals[s.RefFile] = append(b.fileVals[s.RefFile], node)
-			rs := absint.Cat(absint.Lit(s.RefFile+"#/$defs/"), absint.HoleStr(s.DefName))
+			rs := absint.Cat(absint.Lit(s.RefFile+"#/$defs/"), s.defStr())
 			s.built, s.refStr = b, &rs
 			return g.Node(map[string]gen.V{"Ref": rs})
 		}
@@ -547,14 +572,14 @@ func (b *builder) build(s *Spec, label string) gen.V {
 			b.defVals[slot] = node
 		} else {
 			s.DefName = b.defName(s, label)
-			b.defKeys = append(b.defKeys, absint.HoleStr(s.DefName))
+			b.defKeys = append(b.defKeys, s.defStr())
 			b.defVals = append(b.defVals, node)
 		}
 		prefix := "#/$defs/"
 		if s.Ref == "definitions" {
 			prefix = "#/definitions/"
 		}
-		rs := absint.Cat(absint.Lit(prefix), absint.HoleStr(s.DefName))
+		rs := absint.Cat(absint.Lit(prefix), s.defStr())
 		s.built, s.refStr = b, &rs
 		return g.Node(map[string]gen.V{"Ref": rs})
 	}
